@@ -272,14 +272,16 @@ func faultHappenedAfterExec(tr *hx.Trace, n uint64) bool {
 
 func C14(rep *ev.Reporter, tier string) {
 	bud := NewBudget(150 * time.Second)
-	companions := [][2]int{{4, 0}, {0, 1}, {3, 2}, {5, 0}, {4, 3}, {2, 2}, {4, 9}, {14, 9}, {15, 0}}
+	// companions: every condition shape x the first 4 action lists, plus the pairs that matter for later failures
+	companions := [][2]int{{4, 9}, {14, 9}}
+	nActs := 4
 	if tier == "thorough" {
 		bud = NewBudget(9 * time.Minute)
-		companions = nil
-		for c := range c14Conds {
-			for a := 0; a < 4; a++ {
-				companions = append(companions, [2]int{c, a})
-			}
+		nActs = len(c14Acts)
+	}
+	for c := range c14Conds {
+		for a := 0; a < nActs; a++ {
+			companions = append(companions, [2]int{c, a})
 		}
 	}
 	type prog struct {
@@ -295,9 +297,13 @@ func C14(rep *ev.Reporter, tier string) {
 			}
 		}
 	}
-	if tier == "thorough" {
-		for c1 := 0; c1 < 6; c1++ {
-			for a1 := 0; a1 < 4; a1++ {
+	{
+		k3c, k3a := 6, 4
+		if tier == "thorough" {
+			k3c, k3a = len(c14Conds), len(c14Acts)
+		}
+		for c1 := 0; c1 < k3c; c1++ {
+			for a1 := 0; a1 < k3a; a1++ {
 				progs = append(progs, prog{fmt.Sprintf("c14/k3/%d.%d", c1, a1), []*grl.Rule{c14Rule(1, c1, a1), c14Rule(2, 3, 1), c14Rule(3, 2, 2)}})
 			}
 		}
